@@ -11,6 +11,7 @@ import (
 	"math/big"
 	"os"
 	"path/filepath"
+	"strings"
 	"time"
 
 	"github.com/notaryproject/notation-go/zzverif/lib/forge"
@@ -41,6 +42,9 @@ type Fixture struct {
 	RootDER []byte             `json:"root_der"`
 	Desc    ocispec.Descriptor `json:"desc"` // the OCI artifact (the subject manifest of the layout)
 	Blob    []byte             `json:"blob"` // the blob of the blob entry points
+	// the artifact / blob that no signature covers
+	OtherDesc ocispec.Descriptor `json:"other_desc"`
+	OtherBlob []byte             `json:"other_blob"`
 	// Sigs: "<oci|blob>/<jws|cose>[+plugin]" valid envelopes
 	Sigs map[string][]byte `json:"sigs"`
 	// Bases: base inputs of the derived byte mutations ("jws", "cose", "crl-der")
@@ -63,7 +67,7 @@ type world struct {
 	chain   *pki.Chain
 }
 
-const fixtureVersion = "c12-fixture-4"
+const fixtureVersion = "c12-fixture-5"
 
 // loadOrBuildWorld reuses the fixture of an earlier run while it is younger than 12 h, so that
 // the case list (byte offsets, lengths) and the class histogram are the same from run to run:
@@ -87,6 +91,13 @@ func loadOrBuildWorld() (*world, time.Time) {
 		}
 	}
 	return w, w.Created
+}
+
+// attrKinds: the extended signed attribute a matrix signature carries besides the plugin headers
+var attrKinds = []string{"none", "str-crit", "str-noncrit", "int-crit", "int-noncrit"}
+
+func matrixSigName(kind, format string, plug bool, attr string) string {
+	return fmt.Sprintf("m:%s/%s/plugin=%v/%s", kind, format, plug, attr)
 }
 
 func descOf(mt string, b []byte) ocispec.Descriptor {
@@ -143,6 +154,7 @@ func buildWorld() *world {
 	// ---- signatures
 	blobDesc := ocispec.Descriptor{MediaType: "application/octet-stream", Digest: digest.FromBytes(w.Blob), Size: int64(len(w.Blob))}
 	ociPayload := forge.PayloadFor(ocispec.Descriptor{MediaType: w.Desc.MediaType, Digest: w.Desc.Digest, Size: w.Desc.Size, Annotations: map[string]string{"k": "v"}})
+	blobDesc.Annotations = map[string]string{"k": "v"}
 	blobPayload := forge.PayloadFor(blobDesc)
 	plug := []forge.Attr{{Key: forge.HdrPlugin, Critical: true, Value: pluginName}, {Key: forge.HdrPluginMinVer, Critical: true, Value: "1.0.0"}, {Key: critAttr, Critical: true, Value: "must-understand"}}
 	for _, f := range forge.Formats {
@@ -157,6 +169,44 @@ func buildWorld() *world {
 	}
 	w.Bases["jws"] = w.Sigs["oci/jws"]
 	w.Bases["cose"] = w.Sigs["oci/cose"]
+	// the matrix's signature kinds: format x plugin demanded x extended attribute
+	for _, f := range forge.Formats {
+		sf := "jws"
+		if f == forge.COSE {
+			sf = "cose"
+		}
+		for _, kind := range []string{"oci", "blob"} {
+			payload := ociPayload
+			if kind == "blob" {
+				payload = blobPayload
+			}
+			for _, pl := range []bool{false, true} {
+				for _, at := range attrKinds {
+					if f == forge.JWS && strings.HasPrefix(at, "int-") {
+						continue // integer labels exist in COSE only
+					}
+					var ext []forge.Attr
+					if pl {
+						ext = append(ext, forge.Attr{Key: forge.HdrPlugin, Critical: true, Value: pluginName}, forge.Attr{Key: forge.HdrPluginMinVer, Critical: true, Value: "1.0.0"})
+					}
+					switch at {
+					case "str-crit":
+						ext = append(ext, forge.Attr{Key: critAttr, Critical: true, Value: "must-understand"})
+					case "str-noncrit":
+						ext = append(ext, forge.Attr{Key: critAttr, Critical: false, Value: "may-ignore"})
+					case "int-crit":
+						ext = append(ext, forge.Attr{Key: int64(-70001), Critical: true, Value: "must-understand"})
+					case "int-noncrit":
+						ext = append(ext, forge.Attr{Key: int64(-70001), Critical: false, Value: "may-ignore"})
+					}
+					w.Sigs[matrixSigName(kind, sf, pl, at)] = forge.Build(forge.Spec{Format: f, Chain: w.chain.X509(), Key: w.chain.Leaf().Key, Payload: payload, Agent: "c12/1.0", Ext: ext})
+				}
+			}
+		}
+	}
+	// the artifact / blob that was NOT signed
+	w.OtherBlob = []byte("c12 another blob: pack my box with five dozen liquor jugs")
+	w.OtherDesc = ocispec.Descriptor{MediaType: w.Desc.MediaType, Digest: digest.FromString("c12 another artifact"), Size: w.Desc.Size}
 
 	// ---- the layout's signature manifests
 	emptyCfg := put(typeNotation, []byte("{}"))
